@@ -20,7 +20,7 @@ import tlc
 from common import Check, pool_map
 from enc import dec
 
-LEVEL = "model_checking"
+LEVEL = "exploration"
 AN = ["ges_rentenv_beitr_arbeitnehmer_m", "arbeitsl_v_beitr_arbeitnehmer_m", "ges_krankenv_beitr_arbeitnehmer_m", "ges_pflegev_beitr_arbeitnehmer_m"]
 AG = ["ges_rentenv_beitr_arbeitgeber_m", "arbeitsl_v_beitr_arbeitgeber_m", "ges_krankenv_beitr_arbeitgeber_m", "ges_pflegev_beitr_arbeitgeber_m"]
 TOT = ["_ges_rentenv_beitr_midijob_sum_arbeitnehmer_arbeitgeber_m", "_arbeitsl_v_beitr_midijob_sum_arbeitnehmer_arbeitgeber_m", "_ges_krankenv_beitr_midijob_sum_arbeitnehmer_arbeitgeber_m", "_ges_pflegev_beitr_midijob_sum_arbeitnehmer_arbeitgeber_m"]
